@@ -277,6 +277,9 @@ def run(ctx):
                     "rings": [{"nodes": ["".join(map(chr, n)) for n in g["nodes"]], "sig": g["sig"],
                                "get": ["".join(map(chr, x)) for x in g["get"]][:12]} for g in v["rings"][:6]],
                     "keys": ["".join(map(chr, x)) for x in v["keys"]][:12]}
+        if v["op"] == "gatehist":
+            return {"op": "gatehist", "reqs": [{x: r[x] for x in ("type", "topic", "hadSession", "rejected", "reachedHub")} |
+                                               {"same": r["sigA"] == r["sigB"]} for r in v["reqs"]]}
         if v["op"] == "place":
             return {"op": "place", "members": ["".join(map(chr, n)) for n in v["members"]], "sigs": [w["sig"] for w in v["views"]]}
         return v
@@ -291,6 +294,15 @@ def run(ctx):
                 ic, site = elect_class(v, name, k)
                 nfail[(name, ic)] += 1
                 ctx.fail(name, brief_step(v, k), op="elect", site=site, input_class=ic)
+            elif v["op"] == "gatehist":
+                name, _, k = m.partition("@")
+                q = v["reqs"][int(k) - 1] if k else {}
+                ic = "established_multiplexing_session" if q.get("hadSession") else "first_request_of_the_pair"
+                nfail[(name, ic)] += 1
+                ctx.fail(name, {"op": "gatehist", "request": int(k or 0), "req": q, "history": [
+                    {x: r[x] for x in ("type", "topic", "hadSession", "rejected", "reachedHub")} | {"same": r["sigA"] == r["sigB"]}
+                    for r in v["reqs"][:int(k or 0)]]},
+                    op="gatehist", site="server/cluster.go:456-500 (Cluster.TopicMaster)", input_class=ic, req_type=q.get("type", ""))
             else:
                 nfail[(m, v["op"])] += 1
                 ctx.fail(m, brief_ring(v), op=v["op"], site="server/ringhash/ringhash.go" if v["op"] == "ring" else "server/cluster.go",
@@ -332,12 +344,17 @@ def run(ctx):
     ctx.cov.update({
         "states": u1states + r2.distinct + r3.distinct, "transitions": u1trans + r2.generated + r3.generated,
         "traces_validated_against_impl": len(vectors),
-        "evaluations": gets + steps + sum(len(v["views"]) * len(v["topics"]) for v in vectors if v["op"] == "place") + ops["gate"],
+        "evaluations": gets + steps + sum(len(v["views"]) * len(v["topics"]) for v in vectors if v["op"] == "place") + ops["gate"]
+                       + sum(len(v["reqs"]) for v in vectors if v["op"] == "gatehist"),
         "distinct_nontrivial": len(ring_cases) + elected + accepted + stale + ops["gate"],
         "rule": "ring: every hash table 0..7 on the 4 replica strings of 2 nodes (%s), seeded random tables for 1..4 nodes from a pool with awkward names, 1..3 replicas, and the default CRC32 ring on 1..8 random names; per case all subsets/permutations/one duplicate/empty listing, Get of every key and Signature. election: TLC-simulated schedules of the as-built spec (3..5 nodes, vote_after 1..4, node_fail_after 1..2, loss/duplication/reordering/partition) replayed into real Cluster values; non-trivial = a leader elected, a health check accepted or ignored as stale, a gate probe" % ("all 4096" if thorough else "every 16th"),
         "exhaustive": False,
         "model": {k: {"generated": r.generated, "distinct": r.distinct, "wall_s": round(r.wall, 1)} for k, r in u1res.items()},
-        "ring": {"cases": len(ring_cases), "gets": gets, "place_cases": ops["place"], "gate_probes": ops["gate"]},
+        "ring": {"cases": len(ring_cases), "gets": gets, "place_cases": ops["place"], "gate_probes": ops["gate"],
+                 "gate_histories": ops["gatehist"],
+                 "gate_history_requests": sum(len(v["reqs"]) for v in vectors if v["op"] == "gatehist"),
+                 "gate_history_stale_on_established_session": sum(1 for v in vectors if v["op"] == "gatehist" for r in v["reqs"]
+                                                                  if r["hadSession"] and r["sigA"] != r["sigB"])},
         "election": {"schedules": len(sched), "traces": len(traces), "steps": steps, "events": dict(evs), "leaders_elected": elected,
                      "health_accepted": accepted, "health_mismatching_ring": mismatch, "health_stale": stale,
                      "node_crashes_observed": crashes, "steps_with_a_partitioned_node": partsteps,
